@@ -322,10 +322,39 @@ def relation_level(ctx, prop):
     ctx.trusted.append("tlapm 1.6 back ends (Zenon, SMT, PTL) for the relation-level accuracy theorems of spec/proofs/VOAccuracyProofs.tla (any number of designs)")
 
 
+def geometry_premise(ctx, prop):
+    """the accuracy argument rests on the region predicates being the specification's (VOSafety computes its relations with VOGeometry):
+    the three-objective rows of the C09 - C11 tables - the part the two-objective lattice runs of this check cannot reach - are replayed
+    here as well (orthant and general integer cones for 'is dominated', the orthant table and evaluator-based general cones for 'is
+    covered' and the pessimistic comparison)."""
+    from . import geomtab as T
+    rows3 = T.table3(ctx, G=1)
+    rows3c = T.table3c(ctx, G=1)
+    bad = []
+    n = 0
+    c, b = T.replay3(ctx, "dom", rows3 + rows3c, ctx.seed, every=5)
+    n += c
+    bad += b
+    for part in (("cov", "pdom") if prop == "C05" else ("cov",)):
+        T.bind_refeval3(ctx, part, rows3)
+        c, b = T.replay3(ctx, part, rows3, ctx.seed, every=5)
+        n += c
+        bad += b
+        c, b = T.eval3d(ctx, part, ctx.seed + 11, 400)
+        n += c
+        bad += b
+    for x in bad:
+        ctx.violation("premise-%s|cone=%s" % (x["kind"], x["row"]["cone"]), x, "region predicate (premise of the accuracy argument) %s: code answered %s, specification says %s for %s" % (
+            x["kind"], x["got"], x["expected"], {k: v for k, v in x["row"].items() if k not in ("ans", "allscales")}))
+    ctx.evaluations += n
+    ctx.extra["geometry_premise_calls"] = n
+
+
 def run_prop(ctx, prop):
     import vopy.algorithms  # noqa: F401
     thorough = ctx.tier == "thorough"
     relation_level(ctx, prop)
+    geometry_premise(ctx, prop)
     inv = "AccuratePRobust" if prop == "C01" else "AccurateVRobust"
     names = [k for k, v in INST.items() if v["prop"] == prop]
     jobs = []
